@@ -23,13 +23,15 @@ AS = (1 / 64, 0.25, 0.5, 2.0, 3.0, 10.0, 64.0, 100.0)
 
 def REQUIRED(tier):
     return [f"scale:{m}" for m in SCALES] + ["axis:None", "axis:0", "axis:1", "shape:one_lane", "shape:2d", "shape:1d", "class:constant", "class:zeros", "class:mixed_lanes", "class:ties",
-                                             "class:outliers", "equivariance_checks", "zscore_checks", "lane_checks", "a<0", "via_block", "via_timeseries", "layout:F", "layout:T_view", "dtype:float64_input", "input_unchanged_checks", "class:constant_nonround", "zscore_norm_location_checks", "dtype:unsigned_input"]
+                                             "class:outliers", "equivariance_checks", "zscore_checks", "lane_checks", "a<0", "via_block", "via_timeseries", "layout:F", "layout:T_view", "dtype:float64_input", "input_unchanged_checks", "class:constant_nonround", "zscore_norm_location_checks", "dtype:unsigned_input", "long_strided_lane_checks"]
 
 
 def cases(tier, seed):
     n = 3000 if tier == "quick" else 40000
     for i in range(0, n, 10):
         yield {"n": 10, "seed": int(seed) * 100003 + i}
+    for i in range(3 if tier == "quick" else 24):
+        yield {"kind": "long_lanes", "seed": int(seed) * 100003 + i}
 
 
 def _data(rng, shape, cls):
@@ -78,7 +80,37 @@ def _lanes(x, axis):
     return [x[i, :] for i in range(x.shape[0])], (x.shape[0],)
 
 
+def _long_lanes(case, ctx):
+    """Lanes of 10^5..10^6 samples along the strided axis of a C-ordered block, on a level far above the scatter: single-precision running
+    sums lose the location there.  The per-axis result must agree with the lane-by-lane 1-D estimator and not move under x -> x + b."""
+    from sigpyproc.core import stats
+
+    rng = np.random.default_rng([case["seed"], 151])
+    n = int(rng.choice([1 << 17, 300000, 1 << 20]))
+    level = float(rng.choice([1000.0, -2500.0]))
+    x = (rng.normal(size=(n, 3)) + level).astype(np.float32)
+    for loc in ("mean", "median"):
+        for method in ("std", "iqr"):
+            ctx.evaluated(); ctx.count("long_strided_lane_checks")
+            one = dict(case, params={"n": n, "level": level, "loc": loc, "scale": method})
+            z = np.asarray(stats.estimate_zscore(x, loc, method, 0).data, dtype=np.float64)
+            if not np.all(np.isfinite(z)):
+                ctx.violation(f"non-finite-zscore:long-lanes:{method}:{loc}", "z-scores of finite data contain NaN/inf", one); return
+            for jl in range(3):
+                z1 = np.asarray(stats.estimate_zscore(np.ascontiguousarray(x[:, jl]), loc, method).data, dtype=np.float64)
+                if np.max(np.abs(z[:, jl] - z1)) > 2e-3:
+                    ctx.violation(f"lane-inconsistent:zscore:long-strided-lanes:{loc}", f"axis-0 z-scores of a ({n},3) block on level {level} differ from the 1-D result of lane {jl} by {np.max(np.abs(z[:, jl] - z1)):.3g} sigma", one)
+                    return
+            zb = np.asarray(stats.estimate_zscore((x.astype(np.float64) + 512.0).astype(np.float32), loc, method, 0).data, dtype=np.float64)
+            if np.max(np.abs(zb - z)) > 5e-3:
+                ctx.violation(f"zscore-not-equivariant:long-strided-lanes:{loc}", f"z(x+512) differs from z(x) by {np.max(np.abs(zb - z)):.3g} sigma on ({n},3) lanes at level {level}", one)
+                return
+    ctx.nontrivial_case(case)
+
+
 def run_case(case, ctx):
+    if case.get("kind") == "long_lanes":
+        return _long_lanes(case, ctx)
     for j in ([case["only"]] if "only" in case else range(case["n"])):
         _one(case, j, ctx)
 
